@@ -2028,7 +2028,10 @@ func (d *DFA) SearchReverseLimited(cache *DFACache, haystack []byte, start, end,
 		lastMatch = lowerBound
 	}
 
-	if lowerBound > start && lastMatch < 0 {
+	// The scan was cut short by minStart while the DFA was still alive: a longer
+	// (further left) match may exist below the bound, so a match start found so
+	// far is not necessarily the leftmost one. Let the caller retry.
+	if lowerBound > start {
 		return SearchReverseLimitedQuadratic
 	}
 
